@@ -767,7 +767,7 @@ func c04Exception(lg *ledger, fn *ssa.Function, ob obligation) string {
 }
 
 func checkC04(r *Run) {
-	r.Rule("R1", "panic-obligation ledger over the evaluator, the context types and the module's registered helpers: every reflect operation with a precondition, single-result type assertion, index/slice expression, dereference of an asserted pointer and integer division is discharged by construction, a dominating guard, agreement of all incoming edges, all phi inputs or all static callers", 120)
+	r.Rule("R1", "panic-obligation ledger over the evaluator, the context types and the module's registered helpers: every reflect operation with a precondition, single-result type assertion, index/slice expression, dereference of an asserted pointer and integer division is discharged by construction, a dominating guard, agreement of all incoming edges, all phi inputs or all static callers", 60)
 	fns := c04Scope(r.W)
 	runLedger(r, "R1", fns, nil)
 	r.Note("operation table: reflect.Value{Type,MethodByName,CanInterface,CanSet,CanAddr,Interface,IsNil,Elem,Len,Cap,Index,MapKeys,MapIndex,SetMapIndex,Set,FieldByName,Field,Call,Slice,Convert}, reflect.Type{Elem,Key,NumIn,IsVariadic,In,AssignableTo,ConvertibleTo,Implements,Kind,...}, reflect.{New,Zero,PtrTo,Append}, x.(T), a[i], a[i:j], *p of an asserted pointer, integer / and %%, panic()")
@@ -801,12 +801,12 @@ func c11Funcs(w *World) map[string]bool {
 }
 
 func checkC11(r *Run) {
-	r.Rule("R1", "selector provenance: the argument of each navigation primitive is the unmodified selector (Index <- the comma-ok int assertion of the evaluated index; MapIndex/SetMapIndex <- ValueOf(index) possibly converted to the key type; FieldByName/MethodByName <- the identifier node's Value), and the bounds test mentions the same values as the access", 6)
-	r.Rule("R2", "failure arms: where navigation cannot be completed the navigation functions return nil or a non-nil error, never a value loaded from the container or the receiver itself", 8)
-	r.Rule("R3", "navigation never panics: the panic-obligation ledger restricted to the identifier, index access/update, index-callee and call (receiver/method lookup) evaluators", 40)
-	r.Rule("R4", "pointer transparency: after a Kind()==Ptr test the value is replaced by Elem() before the struct test; method lookup tries the value and then a synthesised pointer", 3)
-	r.Rule("R5", "parser wiring: assignCallee handles exactly index, call and identifier nodes and records an error otherwise", 2)
-	r.Rule("R6", "navigation state is per evaluation: no cache of reflection results keyed by names or types, and the synthesised pointer for pointer-receiver methods is fresh for every call", 2)
+	r.Rule("R1", "selector provenance: the argument of each navigation primitive is the unmodified selector (Index <- the comma-ok int assertion of the evaluated index; MapIndex/SetMapIndex <- ValueOf(index) possibly converted to the key type; FieldByName/MethodByName <- the identifier node's Value), and the bounds test mentions the same values as the access", 1)
+	r.Rule("R2", "failure arms: where navigation cannot be completed the navigation functions return nil or a non-nil error, never a value loaded from the container or the receiver itself", 1)
+	r.Rule("R3", "navigation never panics: the panic-obligation ledger restricted to the identifier, index access/update, index-callee and call (receiver/method lookup) evaluators", 15)
+	r.Rule("R4", "pointer transparency: after a Kind()==Ptr test the value is replaced by Elem() before the struct test; method lookup tries the value and then a synthesised pointer", 1)
+	r.Rule("R5", "parser wiring: assignCallee handles exactly index, call and identifier nodes and records an error otherwise", 1)
+	r.Rule("R6", "navigation state is per evaluation: no cache of reflection results keyed by names or types, and the synthesised pointer for pointer-receiver methods is fresh for every call", 1)
 	w := r.W
 	nav := c11Funcs(w)
 	var fns []*ssa.Function
